@@ -253,6 +253,10 @@ def finish(prop, tier, seed, mod, results, t0, tree_hash, no_replay=False, extra
             print('INCONCLUSIVE: encoder validation failed on %d sampled paths (real code and symbolic path disagree): %s' % (len(mismatches), mp))
             rc = 2
     wall = time.time() - t0
+    slow = sorted(results, key=lambda r: -r['wall'])[:4]
+    if os.environ.get('VERIF_VERBOSE'):
+        for r in slow:
+            print('  slow shape %.1fs paths=%d %r' % (r['wall'], r['stats']['paths'], r['shape']))
     if not samples:
         samples = [dict(note='no sample recorded')]
     ev = dict(
